@@ -127,6 +127,43 @@ def geometry_scan(n_max, rates=(0.03, 0.05, 0.01), near=1e-6):
     return None, scanned, calls
 
 
+_TWINS = {}
+
+
+def geometry_twin(est, fpr, same_hashes=True):
+    """Other nominal parameters (est_elements, false_positive_rate) that give a Bloom filter of the SAME number of
+    bits — and the same number of hashes (same_hashes=True: the two filters are compatible operands although they
+    were built from different parameters) or a DIFFERENT number of hashes (same_hashes=False: same bits, yet
+    incompatible).  Found by scanning nearby parameters through the public constructor; None if there is none."""
+    key = (est, fpr, same_hashes)
+    if key in _TWINS:
+        return _TWINS[key]
+    from probables import BloomFilter
+
+    found = None
+    try:
+        base = BloomFilter(est_elements=est, false_positive_rate=fpr)
+        g = (base.number_bits, base.number_hashes)
+        for est2 in [est + d for d in (1, 2, 3, -1, 4, 5, 7, 10, est)] if est < 400 else []:
+            if est2 < 1 or found:
+                continue
+            for i in range(1, 260):
+                fpr2 = fpr * (0.35 + i / 80.0)
+                if not 0.0 < fpr2 < 0.99:
+                    continue
+                try:
+                    o = BloomFilter(est_elements=est2, false_positive_rate=fpr2)
+                except Exception:  # noqa: BLE001
+                    continue
+                if o.number_bits == g[0] and ((o.number_hashes == g[1]) == same_hashes):
+                    found = (est2, fpr2)
+                    break
+    except Exception:  # noqa: BLE001
+        found = None
+    _TWINS[key] = found
+    return found
+
+
 def make_twin(ctor):
     """the independent structure of another geometry; None when that geometry is rejected by the constructor"""
     try:
